@@ -36,8 +36,8 @@ from typing import Any, Callable, Iterator, Optional
 from bounded import _c13_oracle as O
 
 RULE = ("P: every assignment of one of 5 hit sets (none, a, c, a+b apart, a+b overlapping with equal score) to "
-        "each gene of a 4-gene linear record (625) and a 3-gene circular record with a gene next to the origin "
-        "(125), 5 rules of which ra/rb/rab and rc/rac give protoclusters with identical coordinates; each scenario "
+        "each gene of a 4-gene linear record and a 3-gene circular record with a gene next to the origin "
+        "(452 scenarios: the equal-score pair in at most one gene), 5 rules of which ra/rb/rab and rc/rac give protoclusters with identical coordinates; each scenario "
         "run in children with PYTHONHASHSEED 0..7 and in-process under 4 set-iteration permutations. "
         "T: all sets of <= 3 hits of the C13 grids that contain a tie (equal start, equal score, identical "
         "coordinates) for refine_hmmscan_results (8 seeds; every permutation of the per-protein set), "
@@ -86,13 +86,22 @@ def scenario(layout: dict[str, Any], choice: list[str]) -> dict[str, Any]:
 
 
 def scenarios(tier: str) -> list[dict[str, Any]]:
-    options = ["-", "a", "c", "ab", "AB"] if tier == "quick" else ["-", "a", "c", "ab", "AB", "aB", "ac"]
+    """ quick: every gene one of (none, a, c, a+b apart); plus the equal-score overlapping pair a/b in one
+        gene with (none, a, c) elsewhere.  thorough: all seven options everywhere. """
     out = []
     for layout in (LINEAR, CIRCULAR):
-        for choice in itertools.product(options, repeat=len(layout["genes"])):
+        n = len(layout["genes"])
+        if tier == "quick":
+            choices = [list(c) for c in itertools.product(["-", "a", "c", "ab"], repeat=n)]
+            for pos in range(n):
+                for rest in itertools.product(["-", "a", "c"], repeat=n - 1):
+                    choices.append(list(rest[:pos]) + ["AB"] + list(rest[pos:]))
+        else:
+            choices = [list(c) for c in itertools.product(["-", "a", "c", "ab", "AB", "aB", "ac"], repeat=n)]
+        for choice in choices:
             if all(c == "-" for c in choice):
                 continue
-            out.append(scenario(layout, list(choice)))
+            out.append(scenario(layout, choice))
     return out
 
 
@@ -220,7 +229,16 @@ def _digest(stages: dict[str, str]) -> dict[str, str]:
 # ------------------------------------------------------------------------------------------
 # set iteration order under our control
 
-class PermutedSet(set):
+class _AnySetMeta(type):
+    """ isinstance(x, <the shadowing name>) must keep accepting the builtin sets made by displays """
+    def __instancecheck__(cls, obj: Any) -> bool:
+        return isinstance(obj, set)
+
+    def __subclasscheck__(cls, sub: Any) -> bool:
+        return issubclass(sub, set)
+
+
+class PermutedSet(set, metaclass=_AnySetMeta):
     """ a set whose iteration order is a chosen permutation of the order the interpreter would use """
     mode = 0
 
@@ -259,14 +277,18 @@ class permuted_sets:  # pylint: disable=invalid-name
         self.mode = mode
         self.touched: list[Any] = []
 
+    _modules: list[Any] = []
+
     def __enter__(self) -> "permuted_sets":
         import importlib  # pylint: disable=import-outside-toplevel
         PermutedSet.mode = self.mode
-        for name in PATCHED_MODULES:
-            try:
-                module = importlib.import_module(name)
-            except ImportError:
-                continue
+        if not permuted_sets._modules:
+            for name in PATCHED_MODULES:
+                try:
+                    permuted_sets._modules.append(importlib.import_module(name))
+                except ImportError:
+                    continue
+        for module in permuted_sets._modules:
             if "set" not in vars(module):
                 vars(module)["set"] = PermutedSet
                 self.touched.append(module)
@@ -351,10 +373,11 @@ def _is_pipeline(case: Any) -> bool:
 
 
 def _f1(clause: str, case: Any) -> bool:
-    """ tied best scores of overlapping equivalent-profile hits in one gene (seed/* of the pipeline) and
-        tied best scores in one overlapping group (layout clause of filter_results) """
+    """ tied best scores of overlapping equivalent-profile hits in one gene (every stage of the pipeline: the
+        HSP objects hash by address, which changes with the seed and from call to call) and tied best scores
+        in one overlapping group (layout clause of filter_results) """
     if _is_pipeline(case):
-        return _kind(clause) == "seed" and _stage(clause) in STAGES and p_tied_equivalent_hits(case)
+        return _kind(clause) in ("seed", "setorder") and _stage(clause) in STAGES and p_tied_equivalent_hits(case)
     return (isinstance(case, dict) and case.get("fn") == "filter"
             and clause.split(" [")[0] == "layout/hits-kept (filter_results)" and O.f_tied_best_in_component(case["hits"]))
 
@@ -365,11 +388,10 @@ def _f2(clause: str, case: Any) -> bool:
     if not _is_pipeline(case) or _kind(clause) not in ("seed", "setorder"):
         return False
     stage = _stage(clause)
-    detections = _obs(case, "detections") or []
-    if not p_multi_definition(detections):
+    if not _obs(case, "multi_definition"):
         return False
     if stage == "detection-json":
-        return p_detection_equal_up_to_definition_order(detections)
+        return bool(_obs(case, "detection_equal_up_to_definition_order"))
     return stage in ("genbank", "json") and not _obs(case, "earlier_stage_differs")
 
 
@@ -379,8 +401,7 @@ def _f3(clause: str, case: Any) -> bool:
     if not _is_pipeline(case) or _kind(clause) not in ("seed", "setorder"):
         return False
     return (_stage(clause) in ("candidates", "regions", "genbank", "json")
-            and p_tied_protoclusters(_obs(case, "protoclusters") or [])
-            and not _obs(case, "protoclusters_differ"))
+            and bool(_obs(case, "tied_protoclusters")) and not _obs(case, "protoclusters_differ"))
 
 
 def _f4(clause: str, case: Any) -> bool:
@@ -457,8 +478,13 @@ def compare_pipeline(run: Any, kind: str, scn: dict[str, Any], variants: dict[st
     except ValueError:
         nontrivial = True
     detections = sorted(set(variants[label].get("detection-json", "") for label in labels))
-    observed_base = {"detections": detections[:4], "protoclusters": sorted(set(protos))[:4],
+    observed_base = {"multi_definition": p_multi_definition(detections),
+                     "detection_equal_up_to_definition_order": p_detection_equal_up_to_definition_order(detections),
+                     "tied_protoclusters": p_tied_protoclusters(protos),
                      "protoclusters_differ": len(set(protos)) > 1}
+    raised = sorted({text for label in labels for text in variants[label].values() if text.startswith("EXCEPTION")})
+    _emit(run, f"{kind}/no-unexpected-exception", (raised[0], {"raised": raised[:3]}) if raised else None,
+          scn, nontrivial, key)
     earlier_differs = False
     for stage in STAGES:
         groups: dict[str, list[str]] = {}
@@ -469,7 +495,8 @@ def compare_pipeline(run: Any, kind: str, scn: dict[str, Any], variants: dict[st
             texts = list(groups)
             shown = _first_difference(texts) if stage not in ("genbank", "json") else "digests differ"
             observed = dict(observed_base)
-            observed["by_variant"] = {",".join(v): (k if len(k) < 300 else k[:300]) for k, v in list(groups.items())[:4]}
+            observed["by_variant"] = {",".join(v): (k if len(k) < 200 else hashlib.sha1(k.encode()).hexdigest())
+                                      for k, v in list(groups.items())[:4]}
             observed["earlier_stage_differs"] = earlier_differs
             problem = (f"{kind} {list(groups.values())[:4]}: {shown}", observed)
         _emit(run, f"{kind}/{stage}", problem, scn, nontrivial, key)
@@ -594,13 +621,26 @@ def _spawn(arg: dict[str, Any], seeds: list[int], run: Any) -> Optional[dict[int
 # ------------------------------------------------------------------------------------------
 # shards
 
-def _run_seed_pipeline(shard: dict[str, Any], run: Any) -> None:
+def _run_seed(shard: dict[str, Any], run: Any) -> None:
+    """ one child per seed evaluates this shard's slice of the pipeline scenarios and of the hit families """
     scns = scenarios(shard["tier"])[shard["chunk"]::shard["of"]]
-    results = _spawn({"scenarios": scns}, shard["seeds"], run)
+    arg = {"scenarios": scns, "t_jobs": shard["jobs"], "chunk": shard["chunk"], "of": shard["of"]}
+    results = _spawn(arg, shard["seeds"], run)
     if results is None:
         return
     for k, scn in enumerate(scns):
         compare_pipeline(run, "seed", scn, {str(seed): results[seed]["pipeline"][k] for seed in shard["seeds"]})
+    for j, job in enumerate(shard["jobs"]):
+        clause = f"seed/hits-kept ({job['fam']})"
+        for k, case in enumerate(_t_job_cases(job, shard["chunk"], shard["of"])):
+            groups: dict[str, list[int]] = {}
+            for seed in shard["seeds"]:
+                groups.setdefault(results[seed]["t"][j][k], []).append(seed)
+            problem = None
+            if len(groups) > 1:
+                problem = (f"results by seed: {dict(list(groups.items())[:3])}",
+                           {"seeds": {out: seeds[:1] for out, seeds in list(groups.items())[:2]}})
+            _emit(run, clause, problem, case, True, _t_key(case))
 
 
 def _run_setorder_pipeline(shard: dict[str, Any], run: Any) -> None:
@@ -613,24 +653,6 @@ def _run_setorder_pipeline(shard: dict[str, Any], run: Any) -> None:
             with permuted_sets(mode):
                 variants[f"perm{mode}"] = _digest(run_pipeline(scn))
         compare_pipeline(run, "setorder", scn, variants)
-
-
-def _run_seed_t(shard: dict[str, Any], run: Any) -> None:
-    arg = {"t_jobs": shard["jobs"], "chunk": shard["chunk"], "of": shard["of"]}
-    results = _spawn(arg, shard["seeds"], run)
-    if results is None:
-        return
-    for j, job in enumerate(shard["jobs"]):
-        clause = f"seed/hits-kept ({job['fam']})"
-        for k, case in enumerate(_t_job_cases(job, shard["chunk"], shard["of"])):
-            groups: dict[str, list[int]] = {}
-            for seed in shard["seeds"]:
-                groups.setdefault(results[seed]["t"][j][k], []).append(seed)
-            problem = None
-            if len(groups) > 1:
-                problem = (f"results by seed: {dict(list(groups.items())[:3])}",
-                           {"seeds": {out: seeds[:1] for out, seeds in list(groups.items())[:2]}})
-            _emit(run, clause, problem, case, True, _t_key(case))
 
 
 def _run_setorder_t(shard: dict[str, Any], run: Any) -> None:
@@ -657,22 +679,20 @@ def shards(tier: str, seed: int) -> list:
     out: list[dict[str, Any]] = []
     if tier == "quick":
         seeds = list(range(8))
-        out += [{"fam": "seed-pipeline", "tier": tier, "chunk": i, "of": 6, "seeds": seeds} for i in range(6)]
         jobs = [{"fam": "refine", "cfg": "q3", "sizes": [2, 3]}, {"fam": "refine", "cfg": "q5", "sizes": [2]},
                 {"fam": "hmmer", "cfg": "h1", "sizes": [2, 3]}]
-        out += [{"fam": "seed-t", "jobs": jobs, "chunk": i, "of": 2, "seeds": seeds} for i in range(2)]
+        out += [{"fam": "seed", "tier": tier, "jobs": jobs, "chunk": i, "of": 4, "seeds": seeds} for i in range(4)]
         out += [{"fam": "setorder-pipeline", "tier": tier, "chunk": i, "of": 6, "modes": [0, 1, 2, 3]} for i in range(6)]
         out += [{"fam": "setorder-t", "cfg": "q3", "sizes": [2, 3], "chunk": i, "of": 2} for i in range(2)]
         out += [{"fam": "setorder-t", "cfg": "q5", "sizes": [2, 3], "chunk": 0, "of": 1}]
-        out += [{"fam": "layout", "cfg": "f0", "chunk": 0, "of": 1}, {"fam": "layout", "cfg": "f1", "chunk": 0, "of": 1},
-                {"fam": "layout", "cfg": "f2", "chunk": 0, "of": 1}]
+        out += [{"fam": "layout", "cfg": "f0", "chunk": 0, "of": 1}, {"fam": "layout", "cfg": "f1", "chunk": 0, "of": 2},
+                {"fam": "layout", "cfg": "f1", "chunk": 1, "of": 2}, {"fam": "layout", "cfg": "f2", "chunk": 0, "of": 1}]
         return out
     seeds = list(range(16))
-    out += [{"fam": "seed-pipeline", "tier": tier, "chunk": i, "of": 16, "seeds": seeds} for i in range(16)]
     jobs = [{"fam": "refine", "cfg": "q0", "sizes": [2, 3]}, {"fam": "refine", "cfg": "q3", "sizes": [2, 3]},
             {"fam": "refine", "cfg": "q5", "sizes": [2, 3]}, {"fam": "hmmer", "cfg": "h1", "sizes": [2, 3]},
             {"fam": "hmmer", "cfg": "h0", "sizes": [2, 3]}]
-    out += [{"fam": "seed-t", "jobs": jobs, "chunk": i, "of": 8, "seeds": seeds} for i in range(8)]
+    out += [{"fam": "seed", "tier": tier, "jobs": jobs, "chunk": i, "of": 16, "seeds": seeds} for i in range(16)]
     out += [{"fam": "setorder-pipeline", "tier": tier, "chunk": i, "of": 16, "modes": list(range(8))} for i in range(16)]
     for cfg in ("q0", "q1", "q2", "q3", "q5"):
         out += [{"fam": "setorder-t", "cfg": cfg, "sizes": [2, 3], "chunk": i, "of": 4} for i in range(4)]
@@ -685,12 +705,10 @@ def shards(tier: str, seed: int) -> list:
 
 def run_shard(shard: dict[str, Any], run: Any) -> None:
     fam = shard["fam"]
-    if fam == "seed-pipeline":
-        _run_seed_pipeline(shard, run)
+    if fam == "seed":
+        _run_seed(shard, run)
     elif fam == "setorder-pipeline":
         _run_setorder_pipeline(shard, run)
-    elif fam == "seed-t":
-        _run_seed_t(shard, run)
     elif fam == "setorder-t":
         _run_setorder_t(shard, run)
     elif fam == "layout":
@@ -701,7 +719,7 @@ def run_shard(shard: dict[str, Any], run: Any) -> None:
 
 def replay(case: dict[str, Any]) -> list[str]:
     """ re-evaluates the clauses of one stored case: in-process clauses always; the seed clauses with the
-        seeds stored in the case (observed.by_variant / observed.seeds), else seeds 0..3 """
+        seeds stored in the case (observed.by_variant / observed.seeds), if any """
     col = _Collector()
     plain = {k: v for k, v in case.items() if k != "observed"}
     fn = case.get("fn")
@@ -711,11 +729,11 @@ def replay(case: dict[str, Any]) -> list[str]:
             with permuted_sets(mode):
                 variants[f"perm{mode}"] = _digest(run_pipeline(plain))
         compare_pipeline(col, "setorder", plain, variants)
-        seeds = sorted({int(s) for label in (_obs(case, "by_variant") or {}) for s in label.split(",")
-                        if s.isdigit()}) or [0, 1, 2, 3]
-        results = _spawn({"scenarios": [plain]}, seeds[:8], col)
-        if results is not None:
-            compare_pipeline(col, "seed", plain, {str(s): results[s]["pipeline"][0] for s in results})
+        seeds = sorted({int(s) for label in (_obs(case, "by_variant") or {}) for s in label.split(",") if s.isdigit()})
+        if seeds:
+            results = _spawn({"scenarios": [plain]}, seeds[:8], col)
+            if results is not None:
+                compare_pipeline(col, "seed", plain, {str(s): results[s]["pipeline"][0] for s in results})
     elif fn == "refine":
         check_refine_setorder(col, plain)
         stored = _obs(case, "seeds")
